@@ -78,6 +78,32 @@ def heap():
     t3["ops"][5]["em"] = 1 - t3["ops"][5]["em"]
     rep = Rep("C05", "quick", 0, "model_checking")
     expect("PQTrace rejects a corrupted is_empty() observation", c05.judge_histories(rep, 7, "min", [t3], "self2") == 1)
+    # the caller's side of PQ's contract (X05): a history recorded from a real model fit is accepted; the same history with one update
+    # of a queued element turned into a worsening one is rejected with the caller_* clause
+    import heaprec
+    import numpy as np
+    import x05
+    from opfython.models.supervised import SupervisedOPF
+    heaprec.install()
+    start = len(heaprec.LIVE)
+    r = np.random.default_rng(4)
+    Xs = r.normal(size=(9, 2)) + 2.0 * (np.arange(9) % 2)[:, None]
+    SupervisedOPF().fit(Xs, np.arange(9) % 2)
+    trs = [heaprec.to_trace(x)[0] for x in heaprec.LIVE[start:]]
+    rep = Rep("X05", "quick", 0, "model_checking")
+    expect("PQTrace accepts the heap histories of a real SupervisedOPF.fit (both sides of the contract)", len(trs) == 2 and x05.judge(rep, trs, "self3") == 0)
+    t4 = copy.deepcopy(trs[1])
+    seen = {}
+    for o in t4["ops"]:
+        if o["op"] == "upd" and o["e"] in seen and o["c"] < seen[o["e"]]:
+            o["c"] = seen[o["e"]] + 1          # the improving update of a queued element becomes a worsening one
+            break
+        if o["op"] == "upd":
+            seen[o["e"]] = o["c"]
+        if o["op"] == "rem" and o["ret"] in seen:
+            del seen[o["ret"]]
+    rep = Rep("X05", "quick", 0, "model_checking")
+    expect("PQTrace rejects a caller that worsens a queued key", x05.judge(rep, [t4], "self4") == 1 and rep.violations[0]["clause"] == "caller_update_worsens_a_queued_cost", rep.violations[:1])
 
 
 def knn():
